@@ -68,6 +68,16 @@ CLAIMS["C05"] = dict(
     technique="static analysis: symbolic codec composition in both directions over AST normal forms; override/flag tables for sugar classes",
     design="DESIGN.md section 5, C05")
 
+CLAIMS["C06"] = dict(
+    text="The property is a table and the table is in the code: the normal form (syntax-directed rewriting, properties/helpers "
+         "inlined) of every signature method, output count and port-kind arm of every operation class is compared with the "
+         "row the specification assigns (28 signature rows, 24 output counts cross-checked against the signature's output row, "
+         "port-kind arms per class, the Call sibling rule that all three readers use the instantiated signature).",
+    note="Rows are compared as expressions, not evaluated; the frozen specification rows carry one citation each (property "
+         "statement / specification/hugr.md).",
+    technique="static analysis: expression normal forms vs frozen specification table; sibling agreement inside ops.Call",
+    design="DESIGN.md section 5, C06")
+
 NOT_APPLICABLE_REASON: dict[str, str] = {}
 
 
